@@ -96,6 +96,16 @@ func genC20(out, tier string, rng *rand.Rand) {
 			tasks = append(tasks, Task{en, "degenerate", prog})
 		}
 	}
+	// (b') table ids and parents outside the documented formats, compared with the model's validation;
+	// each followed by a listing and reads of the seeded table
+	for _, en := range engines() {
+		for _, nm := range [][2]string{{parentA, ""}, {parentA, "t 1"}, {parentA, "-t"}, {parentA, ".t"}, {parentA, "t.1-_x"}, {parentA, "T1"}, {parentA, "t1/"}, {parentA, "t2/../t1"}, {parentA, ".."}, {parentA, "."},
+			{parentA, "./t1"}, {parentA, "t1/sub"}, {parentA, "nul\x00byte"}, {parentA, "caf\xc3\xa9"}, {"", "t9"}, {".", "t9"}, {"/abs", "t9"}, {"../x", "t9"}, {"plain", "t9"}, {"projects/p/instances", "t9"}, {"projects//instances/i", "t9"}, {"projects/p/instances/i/", "t9"}, {"projects/p/instances/i/tables/t1", "t9"}, {"projects/../instances/i", "t9"}, {"projects/p/instances/.", "t9"}, {"project/p/instances/i", "t9"}, {"projects/p/instance/i", "t9"}, {"projects/..p/instances/i.", "t9"}, {parentB, "t9"}} {
+			mk := Call{Req: Req{Kind: "create", Parent: nm[0], Tid: nm[1], Fams: []FamDef{{Name: "other"}}}, Now: 1}
+			prog := append(append([]Call{}, c20Seed()...), mk, Call{Req: Req{Kind: "get", Table: tname(nm[0], nm[1])}, Now: 1}, Call{Req: Req{Kind: "read", Table: t}, Now: 1000}, Call{Req: Req{Kind: "get", Table: t}, Now: 1000})
+			tasks = append(tasks, Task{en, "table-names", prog})
+		}
+	}
 	RunTasks(sink, tasks, progNontrivial)
 	// counts near the int32 limit: the model's unary arithmetic cannot evaluate them, so these are
 	// judged by the oracle only (a status comes back, the seeded rows are still served)
@@ -133,6 +143,34 @@ func genC20(out, tier string, rng *rand.Rand) {
 		sink.AddOracleOnly(pc, string(js), js, true)
 		closeEmu(e)
 		cleanup()
+	}
+	// table ids that name another table's files on the disk engine ("t2/../t1", "./t1", ...): whatever
+	// the answer, the seeded table must keep its rows, on the running server and after a restart
+	for _, id := range []string{"t2/../t1", "./t1", "t1/", "t1/.", "../tables/t1", "t1/sub", "..", "../../../i/tables/t1"} {
+		st, cleanup := engines()[2].mk()
+		e := NewEmu(st)
+		var obs []Resp
+		prog := append(append([]Call{}, c20Seed()...),
+			Call{Req: Req{Kind: "create", Parent: parentA, Tid: id, Fams: []FamDef{{Name: "other"}}}, Now: 1},
+			Call{Req: Req{Kind: "read", Table: tname(parentA, "t1")}, Now: 1000})
+		for _, c := range prog {
+			obs = append(obs, e.Exec(c))
+		}
+		last := &obs[len(obs)-1]
+		if last.Code != 0 || len(last.Rows) != 2 {
+			last.Notes = append(last.Notes, fmt.Sprintf("seeded rows are not served after CreateTable with the table id %q", id))
+		}
+		if ds, ok := st.(bttest.LeveldbDiskStorage); ok {
+			pr := probeImage(ds.Root) // GetTable + ReadRows of the candidate tables on a restarted copy
+			if len(pr) < 2 || pr[0].Code != 0 || pr[1].Code != 0 || len(pr[1].Rows) != 2 || len(pr[0].Fams) != 2 {
+				last.Notes = append(last.Notes, fmt.Sprintf("after a restart the seeded table is not served as stored (CreateTable with the table id %q)", id))
+			}
+		}
+		closeEmu(e)
+		cleanup()
+		pc := Case{Store: "leveldb-disk", Tag: "table-id-traversal", Prog: prog, Obs: obs}
+		js, _ := json.Marshal(pc)
+		sink.AddOracleOnly(pc, string(js), js, true)
 	}
 	// DropRowRange(all) while a scan is parked at its hand-over (finding BT-17): forced schedule
 	for _, en := range leveldbEngines() {
